@@ -179,7 +179,8 @@ impl<A: Codec> Seq<A> {
     /// assert_eq!(&seq, dna!("CC"));
     /// ```
     pub fn truncate(&mut self, len: usize) {
-        self.bv.truncate(len * A::BITS as usize);
+        // like `Vec::truncate`, a length beyond the end is a no-op, however large
+        self.bv.truncate(len.saturating_mul(A::BITS as usize));
     }
 
     /// Prepend a slice
